@@ -1,15 +1,21 @@
 (* Properties/C20.v — osmapi calls hit the documented endpoint and map statuses to typed errors.
 
    ONLY statements, each closed by a lemma of C20/Proofs*.v, Print Assumptions, and examples.
-   [url_of], [call] (C20/Model.v) interpret the URL expressions, option rules, status chain,
-   count guards and NotFound type that translator/cmd/osmapi regenerates from /repo/osmapi on
-   every run (gen/GenOsmapi.v); [spec_path], [spec_query], [request_ok], [status_class],
+   [url_of], [call], [call_w] (C20/Model.v) interpret what translator/cmd/osmapi regenerates from
+   /repo/osmapi on every run (gen/GenOsmapi.v): the URL expressions, option rules, the SEQUENCE OF
+   EFFECTFUL CALLS of getFromAPI (api_steps: Wait, NewRequest, Do, Close, status chain, Decode —
+   any other call expression in getFromAPI is a translator error), the status chain, count guards
+   and NotFound type.  The request trace of a call is what the interpreter produces from that
+   sequence (ProofsCall.interp_closed is the obligation that breaks when the sequence changes,
+   e.g. a second client.Do).  Domain of the statements: [base_wf] bases (absolute http(s) URL made
+   of characters net/url sends unchanged, no query / fragment; or the default), valid options,
+   finite bbox coordinates, at= times of the years 0000..9999. [spec_path], [spec_query], [request_ok], [status_class],
    [spec_result] (C20/SpecApi.v) are written from the API v0.6 documentation and never look at
    the generated file.  fmt/strconv/strings/time/net-url text functions and net/http + encoding/xml are
    hand models (C20/Text.v, Model.v) tied by the correspondence run (harness/cmd/c20). *)
 From Coq Require Import ZArith List String Ascii Bool.
 From Verif Require Import C20.Syntax C20.Text C20.Types C20.Model C20.SpecApi
-  C20.ProofsText C20.ProofsFloat C20.ProofsUrl C20.ProofsSpec C20.ProofsCall C20.GenOk.
+  C20.Closed C20.ProofsText C20.ProofsFloat C20.ProofsTime C20.ProofsUrl C20.ProofsSpec C20.ProofsCall C20.GenOk.
 Import ListNotations.
 Open Scope Z_scope.
 Open Scope list_scope.
@@ -22,7 +28,7 @@ Open Scope list_scope.
       resolution: each transmitted coordinate is within half a unit of the 7th decimal of the
       argument.  (Full statement; it was refuted for the unrepaired code, see 3.) *)
 Theorem C20_url_matches_spec : forall cfg ep,
-  base_ok cfg = true -> options_valid ep = true -> args_finite ep = true ->
+  base_wf cfg = true -> options_valid ep = true -> args_finite ep = true -> times_in_range ep = true ->
   exists u, url_of cfg ep = Ok u /\ request_ok cfg ep u = true.
 Proof. exact (url_matches_spec_at true). Qed.
 Print Assumptions C20_url_matches_spec.
@@ -41,17 +47,42 @@ Print Assumptions C20_format_coord_reads_back.
 (* 3. the finding that was repaired (fix: commit in /repo, known_findings.d/C20.json): the
       package printed bbox coordinates with %f; six decimals are not faithful at OSM's
       resolution, formatCoord is *)
-Theorem C20_percent_f_was_lossy_refuted :
+Theorem C20_percent_f_is_lossy :
   exists x, finite x = true /\ coord_text_ok true x (fmt_f x) = false /\
             coord_text_ok true x (coord_text x) = true.
 Proof. exact percent_f_lossy. Qed.
-Print Assumptions C20_percent_f_was_lossy_refuted.
+Print Assumptions C20_percent_f_is_lossy.
+
+(* the URL expression of Datasource.Notes as it was before the repair (the same term the
+   translator emitted then: Sprintf with bbox=%f,%f,%f,%f), interpreted by the same [eval]:
+   url_matches_spec fails for it *)
+Definition original_notes_url : sexpr :=
+  ESprintf "%s/notes?%s" (ACons EBase (ACons (EJoin (LNotesOpts (LSnoc LNil
+    (ESprintf "bbox=%f,%f,%f,%f" (ACons (EField 0 "MinLon") (ACons (EField 0 "MinLat")
+       (ACons (EField 0 "MaxLon") (ACons (EField 0 "MaxLat") ANil)))))) 1) "&") ANil)).
+
+Theorem C20_original_bbox_expression_refuted :
+  exists cfg b u,
+    base_wf cfg = true /\ args_finite (Notes b []) = true /\
+    eval apply_opt {| e_base := base_url cfg; e_params := params_of (Notes b []); e_opt := None |}
+         original_notes_url = Ok (VStr u) /\
+    request_ok cfg (Notes b []) u = false.
+Proof.
+  exists (lit "http://osm.test"),
+    {| MinLon := {| f_class := 0; f_neg := false; f_m := 1; f_e := 0 |};
+       MinLat := {| f_class := 0; f_neg := false; f_m := 2; f_e := 0 |};
+       MaxLon := {| f_class := 0; f_neg := false; f_m := 3; f_e := 0 |};
+       MaxLat := {| f_class := 0; f_neg := false; f_m := 5059597824406999; f_e := -52 |} |},
+    (lit "http://osm.test/notes?bbox=1.000000,2.000000,3.000000,1.123456").
+  repeat split; vm_compute; reflexivity.
+Qed.
+Print Assumptions C20_original_bbox_expression_refuted.
 
 (* 4. exactly one GET, limiter first.  With valid options the request trace is: Wait (when a
       limiter is set) then one GET of the URL of statement 1; a failing Wait ends the call
       before any request. *)
 Theorem C20_one_get_after_wait : forall cfg lim ep resp,
-  options_valid ep = true ->
+  base_wf cfg = true -> options_valid ep = true ->
   exists u, url_of cfg ep = Ok u /\
     o_trace (call cfg lim ep resp) =
     match lim with
@@ -60,34 +91,47 @@ Theorem C20_one_get_after_wait : forall cfg lim ep resp,
     | LimiterFails => [EvWait]
     end.
 Proof.
-  intros cfg lim ep resp Hv. exists (explicit_url cfg ep). split.
+  intros cfg lim ep resp Hb Hv. exists (explicit_url cfg ep). split.
   - exact (url_of_explicit cfg ep Hv).
-  - rewrite (call_trace cfg lim ep resp Hv). destruct lim; reflexivity.
+  - rewrite (i_call_trace cfg lim ep resp Hb Hv). destruct lim; reflexivity.
 Qed.
 Print Assumptions C20_one_get_after_wait.
 
 (* limiter_waits_first, as a statement about positions in the trace *)
 Theorem C20_limiter_waits_first : forall cfg lim ep resp m u,
+  base_wf cfg = true ->
   lim <> NoLimiter -> In (EvRequest m u) (o_trace (call cfg lim ep resp)) ->
   exists rest, o_trace (call cfg lim ep resp) = EvWait :: rest /\ lim = LimiterOk.
 Proof.
-  intros cfg lim ep resp m u Hl Hin. destruct (options_valid ep) eqn:Hv.
-  - rewrite (call_trace cfg lim ep resp Hv) in *. destruct lim; [congruence| |].
+  intros cfg lim ep resp m u Hb Hl Hin. destruct (options_valid ep) eqn:Hv.
+  - rewrite (i_call_trace cfg lim ep resp Hb Hv) in *. destruct lim; [congruence| |].
     + eexists; split; reflexivity.
     + destruct Hin as [E|[]]; discriminate.
-  - rewrite (call_invalid cfg lim ep resp Hv) in Hin. destruct Hin.
+  - rewrite (i_call_invalid cfg lim ep resp Hb Hv) in Hin. destruct Hin.
 Qed.
 Print Assumptions C20_limiter_waits_first.
 
 (* 5. an invalid option (limit outside 1..10000) or a failing limiter: nothing reaches the
       server, the call returns an ordinary error and no data *)
 Theorem C20_no_request_without_permission : forall cfg lim ep resp,
+  base_wf cfg = true ->
   options_valid ep = false \/ lim = LimiterFails ->
   let o := call cfg lim ep resp in
   (forall m u, ~ In (EvRequest m u) (o_trace o)) /\
   class_of (o_err o) = COther /\ not_found (o_err o) = false /\ o_data o = None.
-Proof. exact call_no_request. Qed.
+Proof. exact i_call_no_request. Qed.
 Print Assumptions C20_no_request_without_permission.
+
+(* 5b. a base URL the client refuses (no http(s) scheme, a control character, a '%' that is not
+      an escape, a space in the host): the limiter, if any, has been asked, nothing is sent, the
+      call fails with an ordinary error — in every world *)
+Theorem C20_unusable_base_sends_nothing : forall cfg w ep,
+  url_refused (base_url cfg) = true -> options_valid ep = true ->
+  call_w cfg w ep =
+  {| o_trace := match w_lim w with NoLimiter => [] | _ => [EvWait] end;
+     o_err := Some ""%string; o_data := None; o_panic := false; o_bad := false |}.
+Proof. exact call_w_unusable_base. Qed.
+Print Assumptions C20_unusable_base_sends_nothing.
 
 (* 6. status_classes_distinct: the status chain read from getFromAPI realises the documented
       classes, for EVERY integer status: 200 is the only success, 404/403/410/414 each have
@@ -105,50 +149,52 @@ Print Assumptions C20_status_classes_distinct.
 (* 7. not_found_iff_404: Datasource.NotFound(err) is true exactly when a request was made and
       answered 404 — for every call, limiter mode, response *)
 Theorem C20_not_found_iff_404 : forall cfg lim ep resp,
+  base_wf cfg = true ->
   not_found (o_err (call cfg lim ep resp)) = true <->
   (options_valid ep = true /\ lim <> LimiterFails /\ r_status resp = 404).
-Proof. exact not_found_iff. Qed.
+Proof. exact i_not_found_iff. Qed.
 Print Assumptions C20_not_found_iff_404.
 
 (* 8. non_200_never_returns_data, whatever the body contains *)
 Theorem C20_non_200_never_returns_data : forall cfg lim ep resp,
-  r_status resp <> 200 ->
+  base_wf cfg = true -> r_status resp <> 200 ->
   let o := call cfg lim ep resp in o_data o = None /\ o_err o <> None.
-Proof. exact non_200_no_data. Qed.
+Proof. exact i_non_200_no_data. Qed.
 Print Assumptions C20_non_200_never_returns_data.
 
 (* 9. the result is the documented one for every response: the typed error of the status, an
       ordinary error for an unreadable body or a wrong element count, otherwise exactly the
       elements of the response that the call is about, in order *)
 Theorem C20_result_matches_response : forall cfg lim ep resp,
-  options_valid ep = true -> lim <> LimiterFails ->
+  base_wf cfg = true -> options_valid ep = true -> lim <> LimiterFails ->
   let o := call cfg lim ep resp in
   match spec_result ep resp with
   | XData l => o_err o = None /\ o_data o = Some l
   | XErr c => class_of (o_err o) = c /\ o_data o = None
   end.
-Proof. exact call_result. Qed.
+Proof. exact i_call_result. Qed.
 Print Assumptions C20_result_matches_response.
 
 (* 10. single_element_calls_reject_other_counts: Node, Way, Relation, their Version calls,
        Changeset(WithDiscussion), Note, User return the one element of their kind, and fail
        on 0 or >= 2 of them, whatever other elements surround them *)
 Theorem C20_single_element_calls_reject_other_counts : forall cfg lim ep els,
-  options_valid ep = true -> lim <> LimiterFails -> expect_one ep = true ->
+  base_wf cfg = true -> options_valid ep = true -> lim <> LimiterFails -> expect_one ep = true ->
   let o := call cfg lim ep {| r_status := 200; r_body := BOsm els |} in
   exists k, shape_of ep = One k /\
   ((count_kind k els = 1 ->
       exists id, filter (fun e => fst e =? k) els = [(k, id)] /\
                  o_err o = None /\ o_data o = Some [(k, id)])
    /\ (count_kind k els <> 1 -> class_of (o_err o) = COther /\ o_data o = None)).
-Proof. exact expect_one_counts. Qed.
+Proof. exact i_expect_one_counts. Qed.
 Print Assumptions C20_single_element_calls_reject_other_counts.
 
 (* 11. the model is total on the property's domain: no configuration falls outside it, and no
        call indexes an empty result *)
-Theorem C20_model_covers_every_call : forall cfg lim ep resp,
-  o_bad (call cfg lim ep resp) = false /\ o_panic (call cfg lim ep resp) = false.
-Proof. exact call_covered. Qed.
+Theorem C20_model_covers_every_call : forall cfg w ep,
+  base_wf cfg = true ->
+  o_bad (call_w cfg w ep) = false /\ o_panic (call_w cfg w ep) = false.
+Proof. exact i_call_w_covered. Qed.
 Print Assumptions C20_model_covers_every_call.
 
 (* 12. text layer facts used above, for all byte strings / all finite floats *)
@@ -196,33 +242,29 @@ Print Assumptions C20_every_method_implements_its_shape.
    NotesSearch): all elements of the call's kind in document order, nothing else; an empty
    list is a result, not an error *)
 Theorem C20_list_calls_return_their_kind : forall cfg lim ep k els,
-  options_valid ep = true -> lim <> LimiterFails -> shape_of ep = Many k ->
+  base_wf cfg = true -> options_valid ep = true -> lim <> LimiterFails -> shape_of ep = Many k ->
   let o := call cfg lim ep (ok200 (BOsm els)) in
   o_err o = None /\ o_data o = Some (filter (fun e => fst e =? k) els).
-Proof. exact many_returns_kind. Qed.
+Proof. exact i_many_returns_kind. Qed.
 Print Assumptions C20_list_calls_return_their_kind.
 
 (* WayFull, RelationFull, Map: the whole document *)
 Theorem C20_whole_document_calls : forall cfg lim ep els,
-  options_valid ep = true -> lim <> LimiterFails -> shape_of ep = Whole ->
+  base_wf cfg = true -> options_valid ep = true -> lim <> LimiterFails -> shape_of ep = Whole ->
   let o := call cfg lim ep (ok200 (BOsm els)) in
   o_err o = None /\ o_data o = Some (by_kind els).
-Proof. exact whole_returns_document. Qed.
+Proof. exact i_whole_returns_document. Qed.
 Print Assumptions C20_whole_document_calls.
 
 (* ChangesetDownload: a non-nil change holding the create / modify / delete sections; there is
    no element-count condition: an empty osmChange, or an <osm> document, is an empty change *)
 Theorem C20_changeset_download_returns_sections : forall cfg lim id c m d els,
-  lim <> LimiterFails ->
+  base_wf cfg = true -> lim <> LimiterFails ->
   (let o := call cfg lim (ChangesetDownload id) (ok200 (BChange c m d)) in
    o_err o = None /\ o_data o = Some (tagged 1 c ++ tagged 2 m ++ tagged 3 d)) /\
   (let o := call cfg lim (ChangesetDownload id) (ok200 (BOsm els)) in
    o_err o = None /\ o_data o = Some []).
-Proof.
-  intros cfg lim id c m d els Hl. split.
-  - exact (download_returns_sections cfg lim id c m d Hl).
-  - exact (download_of_osm_document_is_empty cfg lim id els Hl).
-Qed.
+Proof. exact i_download. Qed.
 Print Assumptions C20_changeset_download_returns_sections.
 
 (* Limit is accepted exactly in [1, 10000], MaxDaysClosed always (any int, negative included);
@@ -239,7 +281,7 @@ Print Assumptions C20_notes_options_valid_iff.
    The world without redirects and with a live context is the plain call: *)
 Theorem C20_plain_world : forall cfg lim ep resp,
   call_w cfg (plain_world lim resp) ep = call cfg lim ep resp.
-Proof. exact call_w_plain. Qed.
+Proof. reflexivity. Qed.
 Print Assumptions C20_plain_world.
 
 (* what "exactly one GET" means in every world: at most one Wait, first; then — if the limiter,
@@ -247,14 +289,14 @@ Print Assumptions C20_plain_world.
    (statement 1), followed only by the GETs of the Locations the server named and the client's
    policy follows (at most 9); nothing otherwise *)
 Theorem C20_trace_in_every_world : forall cfg w ep,
-  options_valid ep = true ->
+  base_wf cfg = true -> options_valid ep = true ->
   exists u, url_of cfg ep = Ok u /\
     o_trace (call_w cfg w ep) =
     (if waits w ep then [EvWait] else []) ++
     (if permitted w ep then map (EvRequest "GET") (u :: spec_followed w) else []).
 Proof.
-  intros cfg w ep Hv. exists (explicit_url cfg ep). split; [exact (url_of_explicit cfg ep Hv)|].
-  exact (proj1 (proj2 (proj2 (call_w_decompose cfg w ep Hv)))).
+  intros cfg w ep Hb Hv. exists (explicit_url cfg ep). split; [exact (url_of_explicit cfg ep Hv)|].
+  exact (i_world_trace cfg w ep Hb Hv).
 Qed.
 Print Assumptions C20_trace_in_every_world.
 
@@ -262,23 +304,69 @@ Print Assumptions C20_trace_in_every_world.
    are followed (<= 9 hops), unexpected-status for a 3xx handed back, an ordinary error after
    the 10th request or when the context is cancelled in flight; never data with an error *)
 Theorem C20_result_in_every_world : forall cfg w ep,
-  options_valid ep = true -> permitted w ep = true -> w_hop_status w <> 200 ->
+  base_wf cfg = true -> options_valid ep = true -> permitted w ep = true -> w_hop_status w <> 200 ->
   let o := call_w cfg w ep in
   match spec_result_w w ep with
   | XData l => o_err o = None /\ o_data o = Some l
   | XErr c => class_of (o_err o) = c /\ o_data o = None
   end.
-Proof. exact call_w_result. Qed.
+Proof. exact i_world_result. Qed.
 Print Assumptions C20_result_in_every_world.
 
 (* a refusing limiter or a context that is already done: no request at all *)
 Theorem C20_refused_in_every_world : forall cfg w ep,
-  options_valid ep = true -> permitted w ep = false ->
+  base_wf cfg = true -> options_valid ep = true -> permitted w ep = false ->
   let o := call_w cfg w ep in
   (forall m u, ~ In (EvRequest m u) (o_trace o)) /\
   class_of (o_err o) = COther /\ not_found (o_err o) = false /\ o_data o = None.
-Proof. exact call_w_refused. Qed.
+Proof. exact i_world_refused. Qed.
 Print Assumptions C20_refused_in_every_world.
+
+(* 16. the effect sequence read out of getFromAPI, and its meaning.  [api_steps] is generated;
+   the interpreter over it equals the closed form "Wait (if a limiter is set; its error
+   returns), one client.Do of the one request built for the url parameter with the context,
+   status chain, decode" — the equation every trace statement above goes through *)
+Theorem C20_effect_sequence :
+  GenOsmapi.api_steps = [SWait true true; SNewRequest "GET" true; SDo true true; SClose; SStatus; SDecode]
+  /\ forall w url target, get_from_api_w false w url target = get_from_api_wc w url target.
+Proof. split; [reflexivity|exact interp_closed]. Qed.
+Print Assumptions C20_effect_sequence.
+
+(* a second client.Do in the sequence is a second group of requests in the trace: the
+   statements above are NOT true of every effect sequence (witness: the sequence with the Do
+   step doubled sends two GETs) *)
+Theorem C20_doubled_do_refuted :
+  let steps := [SWait true true; SNewRequest "GET" true; SDo true true; SDo true true; SClose; SStatus; SDecode] in
+  let w := plain_world NoLimiter {| r_status := 200; r_body := BOsm [] |} in
+  g_trace (fold_left (exec_step false w (lit "u") "OSM") steps
+             {| g_trace := []; g_method := None; g_resp := None; g_out := None; g_bad := false |})
+  = [EvRequest "GET" (lit "u"); EvRequest "GET" (lit "u")].
+Proof. reflexivity. Qed.
+Print Assumptions C20_doubled_do_refuted.
+
+(* 17. the model's calendar against the specification's: for EVERY day number (unbounded) the
+   date the model's formatter computes is a valid Gregorian date whose textbook day count
+   (SpecApi.days_from_civil, defined independently) is that day number; and for every instant of
+   the years 0000..9999 the text the model prints is accepted by the specification's reader *)
+Theorem C20_calendar : forall d,
+  let '(y, m, dd) := civil_of_days d in
+  valid_date y m dd = true /\ days_from_civil y m dd = d.
+Proof. exact civil_of_days_correct. Qed.
+Print Assumptions C20_calendar.
+
+Theorem C20_time_text : forall t, time_in_range t = true ->
+  time_text_ok t (fmt_time "2006-01-02T15:04:05Z" t) = true.
+Proof. intros t H. rewrite fmt_time_iso. exact (time_text_ok_of_model t H). Qed.
+Print Assumptions C20_time_text.
+
+(* 18. the decimal printer the specification shares with the model, characterised by the
+   independent reader: the text of a number denotes that number, a comma-joined id list splits
+   back into the texts of its ids *)
+Theorem C20_decimal_texts_denote_their_numbers : forall z ids,
+  read_decimal (dec z) = Some (z <? 0, Z.abs z, 0%nat) /\
+  (ids <> [] -> split_on "," (join (lit ",") (map dec ids)) = map dec ids).
+Proof. intros z ids. split; [exact (dec_reads_back z)|exact (ids_split_back ids)]. Qed.
+Print Assumptions C20_decimal_texts_denote_their_numbers.
 
 (* ---------- non-vacuity ---------- *)
 
@@ -289,7 +377,16 @@ Definition ex_cfg : str := lit "http://osm.test/api/0.6".
 Definition ex_ep : endpoint := Map ex_bounds [At 1451606400].
 
 Example ex_hypotheses :
-  base_ok ex_cfg = true /\ options_valid ex_ep = true /\ args_finite ex_ep = true.
+  base_wf ex_cfg = true /\ options_valid ex_ep = true /\ args_finite ex_ep = true /\
+  times_in_range ex_ep = true /\ base_wf [] = true /\
+  base_wf (lit "http://proxy.test/fetch/https%3A%2F%2Fapi.osm.org/api/0.6") = true.
+Proof. vm_compute. repeat split. Qed.
+
+Example ex_bad_bases :
+  base_wf (lit "http://osm.test/api?x=1") = false /\ base_wf (lit "http://osm.test/api#frag") = false /\
+  base_wf (lit "http://osm.test/a b") = false /\ base_wf (lit "osm.test/api") = false /\
+  url_refused (lit "http://osm.test/%zz/api") = true /\ url_refused (lit "http://bad host/api") = true /\
+  url_refused (lit "osm.test/api") = true /\ url_refused (lit "http://osm.test/a b") = false.
 Proof. vm_compute. repeat split. Qed.
 
 Example ex_url :
